@@ -111,6 +111,21 @@ fn aes_keys(n: usize, tier: Tier) -> Vec<Vec<u8>> {
         keys.push(k);
     }
     keys.extend(al::m_set(n, 7));
+    // word-structured keys: every assignment of the 32-bit words of the key to {0, A} (one dense word A), so that any
+    // XOR / equality shortcut between words of the upper half cancels for some key (mutation-campaign survivor:
+    // `t1 | t2` written as `t1 ^ t2` in the AES-192 test is only wrong when word 0 == word 2 != 0 and word 1 == 0)
+    let nw = n / 4;
+    for a in [al::dense(4, 9, 0), vec![0xFF; 4], vec![0, 0, 0, 1]] {
+        for pat in 0u32..(1 << nw) {
+            let mut k = vec![0u8; n];
+            for w in 0..nw {
+                if pat >> w & 1 == 1 {
+                    k[4 * w..4 * w + 4].copy_from_slice(&a);
+                }
+            }
+            keys.push(k);
+        }
+    }
     keys
 }
 
